@@ -453,14 +453,14 @@ pub fn run_c17(ctx: &mut Ctx) -> (String, Value, Vec<String>) {
             ub.push(x);
         }
     }
-    // a system that is not tiny: a burst of 12 000 unit jobs one tick apart ahead of the analysed
+    // a system that is not tiny: a burst of 12 000 unit jobs one tick apart (the next burst 10^7 ticks later) ahead of the analysed
     // task — the fixed-point iteration creeps one tick per round for 12 000 rounds, while most
     // hardenings let it leap
     for ana in if ctx.quick() { vec![Ana::FpP] } else { vec![Ana::FpP, Ana::FpNp, Ana::EdfP, Ana::Fifo] } {
         ub.push(UniCase {
             ana,
             tasks: vec![
-                TaskSpec { arr: ArrSpec::Curve { dmin: (1..=12_000u64).collect() }, cost: CostSpec::Scalar(1), deadline: 900_000, last_seg: 1, max_seg: 1 },
+                TaskSpec { arr: ArrSpec::Curve { dmin: (1..12_000u64).chain([10_000_000]).collect() }, cost: CostSpec::Scalar(1), deadline: 900_000, last_seg: 1, max_seg: 1 },
                 TaskSpec { arr: ArrSpec::Sporadic { t: 1_000_000, j: 0 }, cost: CostSpec::Scalar(1), deadline: 1_000_000, last_seg: 1, max_seg: 1 },
             ],
             tua: 1,
